@@ -222,6 +222,7 @@ def run() -> int:
     rep = Report(PROP, "translation_validation")
     rep.functions = [
         "y0.algorithm.transport.identify_target_outcomes, surrogate_to_transport, get_nodes_to_transport, create_transport_diagram, trso (lines 1-11), trso_line1/2/3/4/6/9/10, _line_6_helper, all_transports_d_separated, activate_domain_and_interventions (run natively)",
+        "RSI: y0.algorithm.transport.get_nodes_to_transport and the NxMixedGraph operations it calls (districts, get_intervened_ancestors, descendants_inclusive), translated from the current AST over a symbolic ADMG (vf/checks/c05_rsi.py)",
         "are_d_separated on the selection diagrams, canonicalize (reached through it)",
         "returned Expression -> z3 polynomial terms over a multi-domain family of SCMs (vf/sem/l2.py with per-domain tables)",
     ]
@@ -229,12 +230,13 @@ def run() -> int:
         "graphs": "quick: ADMGs <=2 nodes (all one-domain inputs), 3 nodes (1/3 of the one-domain inputs, 1/97 of the two-domain inputs), front-door / bow / IV / napkin / fig.3 curated; thorough: all ADMGs on 3 nodes under two labellings (all one-domain inputs, 1/11 two-domain), 1/8 of the 4-node classes, curated 4-node graphs",
         "domains": "1-2 source domains, experiment set Z_i of <=2 (1) variables possibly empty, non-empty surrogate-outcome set W_i disjoint from Z_i",
         "models": "families of positive binary SCMs with one binary latent per bidirected edge: every table and every latent prior is shared with the target except the tables of the nodes that the library's own selection diagram (get_nodes_to_transport) marks for that domain, which are independent parameters",
+        "rsi": "get_nodes_to_transport over every ADMG on N nodes and all non-empty disjoint node sets Z, W: N = 4 (quick), 4-5 (thorough)",
         "per_query_timeout_ms": TIMEOUT_MS[t],
         "PYTHONHASHSEED": hashseed(),
     }
     rep.assumptions = [
         "available distributions: PP[pi*](.) observational in the target; PP[pi_i][Z'](.) for Z' a subset of the declared experiment set Z_i (property statement); any other term (plain P, transport node, undeclared experiment) is reported as out of vocabulary",
-        "the set of differing nodes per domain is the library's own (as the property states); the check does not judge the construction of the selection diagram",
+        "the set of differing nodes per domain in the SEM part is the library's own (as the property states). The construction of the selection diagram is checked separately (RSI part): for every ADMG on N nodes and every (Z_i, W_i), get_nodes_to_transport marks at least the nodes of the construction it documents, (De(Z_i) - W_i) u (district(W_i) - An(W_i) in G without the edges into Z_i); a missing node is a violation (a mechanism would be treated as shared although the experiment does not determine it), extra nodes are conservative and only recorded in the samples",
         "'returns an estimand exactly when ID does': a None result on a query that ID identifies is a violation (TRSO has the target observational distribution at its disposal)",
     ]
     rep.rule = "cases = (graph, X, Y, domains) given to identify_target_outcomes; non-trivial = an estimand mentioning a source domain was returned and solver-checked; distinct by (graph key, X, Y, domains)"
@@ -275,12 +277,49 @@ def run() -> int:
                 continue
             what = f"TRSO returned {short(r['est'], 140)} for {key}: " + (f"value {v['est']} != P*(y|do x) = {v['truth']} at {v['env']} (domains differ at {v['differs']})" if v["kind"] == "wrong" else v["why"])
             rep.add_violation(Violation(PROP, [key], what, dict(base, est_seen=r["est"], **v)))
+    # derivation of the selection diagrams, decided over symbolic graphs (RSI)
+    from .c05_rsi import rsi_jobs, rsi_work
+
+    for job, st, r in pmap(rsi_work, rsi_jobs(t)):
+        if st != "ok":
+            rep.harness_errors.append(short(r, 600))
+            continue
+        rep.cases += 1
+        key = f"rsi:get_nodes_to_transport N={r['N']}"
+        if r.get("status") == "unsupported":
+            rep.inconclusive += 1
+            rep.harness_errors.append(f"{key}: encoding cannot be built on this tree: {r['why']}")
+            continue
+        rep.obligations += 1
+        rep.solver_s += r["solve_s"]
+        if r["twin"] == "sat":
+            rep.nontrivial.add(key)
+        rep.add_sample({"query": key, "missing_node": r["verdict"], "extra_node": r["extra_verdict"], "bool_vars": r["nvars"]})
+        if r["verdict"] == "unsat":
+            rep.discharged += 1
+        elif r["verdict"] == "unknown":
+            rep.inconclusive += 1
+        else:
+            rep.refuted += 1
+            cex = r["cex"]
+            if not cex["bad"]:
+                rep.harness_errors.append(f"{key}: solver counterexample did not reproduce natively: {cex}")
+                continue
+            g = GSpec.from_json(cex["g"])
+            rep.add_violation(Violation(PROP, [f"transport-nodes {g.key()} Z={cex['Z']} W={cex['W']}"], f"get_nodes_to_transport on {g.key()} with experiment Z={cex['Z']} observing W={cex['W']} returned {cex['out']}; the documented construction (De(Z) - W) u (district(W) - An(W) without edges into Z) gives {cex['want']}: missing {cex.get('missing')}", {"property": PROP, "rsi": True, "graph": cex["g"], "Z": cex["Z"], "W": cex["W"], "hashseed": hashseed()}))
     if not rep.samples:
         rep.add_sample({"note": "no verified estimand mentioning a source domain in this run"})
     return rep.finish()
 
 
 def replay(payload: dict) -> int:
+    if payload.get("rsi"):
+        from .c05_rsi import native_check
+
+        r = native_check(GSpec.from_json(payload["graph"]), payload["Z"], payload["W"])
+        print(r)
+        print("reproduced" if r["bad"] else "not reproduced")
+        return 1 if r["bad"] else 0
     g = GSpec.from_json(payload["graph"])
     X, Y, domains = payload["X"], payload["Y"], [tuple(d) for d in payload["domains"]]
     print("graph", g.key(), "X", X, "Y", Y, "domains", domains)
